@@ -64,6 +64,27 @@ META["C12"] = dict(
   note="Per-step stored mass is observed by running one timestep per call with carried states (C06 checks that this equals the uninterrupted run).",
   technique="property-based testing (rapid) with per-step and whole-run mass-budget invariants")
 
+META["C13"] = dict(
+  text="Invariant property test of the reservoir model over generated tables, release curves and forcing: per-step volume balance against the reported outflow / rainfall / evaporation volumes, non-negativity, table consistency of the final level and area, and release-rule bounds over the volumes traversed, with spill allowed only at the top of the table. Exploration.",
+  design_ref="DESIGN.md section 4, C13",
+  note="The release bound carries the integrator's own acceptance slack (1e-4 m^3/s, 1e-5 relative, 60 s forced acceptance x steepest curve slope).",
+  technique="property-based testing (rapid) with water-balance and release-rule invariants")
+META["C16"] = dict(
+  text="Closed-form / identity property test over about twenty small models sharing unit and fraction conventions; every model's outputs are compared with the formula it names or with the algebraic identities of the property, plus a linearity relation for the concentration-based generators. Exploration.",
+  design_ref="DESIGN.md section 4, C16",
+  note="Reference formulas are written from the property text and the unit factors it documents (mg/L -> kg/m3 = 1e-3, mm -> m = 1e-3, percent = 0.01).",
+  technique="property-based testing (rapid) against closed-form references and metamorphic linearity")
+META["C18"] = dict(
+  text="Contract property tests of FindRoot (evaluation points recorded by a wrapper; bracket, value and convergence claims for monotone functions with a known Lipschitz bound; containment for non-monotone ones) and of Piecewise (error exactly outside the table or at NaN, knot values, interpolant). Exploration.",
+  design_ref="DESIGN.md section 4, C18",
+  note="The convergence claim needs the tolerance to be resolvable in floating point (tol > 64*L*ulp(x)); the check states and enforces that precondition.",
+  technique="property-based testing (rapid) with an evaluation-point recorder and analytic convergence bound")
+META["C20"] = dict(
+  text="Ordering / monotonicity property test of the derived climate variables over the meteorological range, with generators concentrated at freezing, at integer temperatures and at the humidity extremes, comparing pairs of points (metamorphic in T and RH). Exploration.",
+  design_ref="DESIGN.md section 4, C20",
+  note="Strict monotonicity is asserted for pairs at least 1e-6 C apart; closer pairs may round to the same value and must only not decrease.",
+  technique="property-based testing (rapid) with pairwise (metamorphic) ordering relations")
+
 import os, sys
 sys.path.insert(0, os.path.dirname(os.path.abspath(__file__)))
 from checks_config import CHECKS
